@@ -115,6 +115,9 @@ type Limits struct {
 	MaxLoop      int // visits of one block per frame activation
 	Preemptions  int
 	TimerFires   int
+	// timers whose (concrete) duration exceeds the horizon never fire: the
+	// explored runs last less virtual time than that (0 = any timer may fire)
+	TimerHorizonNS int64
 	WantWitness  map[string]bool // reach labels for which a model is wanted
 	CollectTrace bool
 	Params       map[string]int
